@@ -503,7 +503,10 @@ class IndexReader(object):
                 yield (vec.id(), vec.weight())
                 vec.next()
         else:
-            format_ = self.schema[fieldname].format
+            # (the vector has a format of its own, which need not be that of
+            # the field's postings)
+            fieldobj = self.schema[fieldname]
+            format_ = fieldobj.vector or fieldobj.format
             decoder = format_.decoder(astype)
             while vec.is_active():
                 yield (vec.id(), decoder(vec.value()))
